@@ -211,6 +211,8 @@ LINEAR_WRAPPERS = {'np.sum', 'np.average', 'np.mean', 'sum', 'np.add.accumulate'
 
 # name -> FunctionDef of module-level helper functions that are safe to inline (set by the runner from the analysed tree)
 INLINE_FUNCTIONS: Dict[str, ast.FunctionDef] = {}
+# name -> numeric value of module-level constants with a unique name in the analysed tree (set by the runner)
+MODULE_CONSTANTS: Dict[str, object] = {}
 
 
 class Translator:
@@ -324,6 +326,10 @@ class Translator:
             d = self.binds.get(key)
             if d is not None and (self.inline is None or self.inline(key)):
                 return self.tr_def(d)
+            if isinstance(node, ast.Name) and d is None and key in MODULE_CONSTANTS:
+                a0 = self.atom_of(node) if self.atom_of else None
+                if a0 is None:
+                    return Rat.const(Fraction(repr(float(MODULE_CONSTANTS[key]))))
             a = self.atom_of(node) if self.atom_of else None
             return Rat.atom(a or key)
         if isinstance(node, ast.Subscript):
